@@ -186,6 +186,39 @@ def long_run_failed(ctx, cfg, err):
                   sig={"stage": "long-run", "what": "run-failed"})
 
 
+def complete_axioms(ctx, coq):
+    """vp_coq.check_props reads `name : type` lines only; Print Assumptions breaks the line after long names
+    (sig_forall_dec, functional_extensionality_dep).  Re-read the blocks so that the evidence lists every axiom
+    and a name outside the allowed list cannot hide behind a line break."""
+    import re
+    outf = os.path.join(vp_coq.COQ, "Props", ".Properties_C05.out")
+    if not os.path.exists(outf):
+        return
+    blocks, cur = [], None
+    for line in open(outf):
+        if line.startswith("Closed under the global context"):
+            blocks.append([]); cur = None
+        elif line.startswith("Axioms:"):
+            cur = []; blocks.append(cur)
+        elif cur is not None:
+            m = re.match(r"^([A-Za-z_][A-Za-z0-9_.']*)\s*(:|$)", line.rstrip("\n"))
+            if m:
+                cur.append(m.group(1))
+    ths, pas, _ = vp_coq.theorems_in("C05")
+    bad = []
+    for i, (name, dis, ax) in enumerate(list(ctx.obligations)):
+        if name in pas and pas.index(name) < len(blocks):
+            full = blocks[pas.index(name)]
+            b = [a for a in full if not any(a.startswith(q) or a == q for q in vp_coq.ALLOWED_AXIOMS)]
+            bad += b
+            ctx.obligations[i] = (name, bool(dis and not b), full)
+            for a in full:
+                ctx.trusted.add("axiom (Coq standard library): " + a)
+    if bad:
+        coq["ok"] = False
+        coq["props"]["bad_axioms"] = sorted(set(coq["props"].get("bad_axioms", []) + bad))
+
+
 def explore(ctx):
     """long-run residual of the Haissinski equation and the energy spread on the real binary"""
     import haiss_explore as he
@@ -228,6 +261,7 @@ def run(ctx, only=None):
                 "potential-well distortion max|W|*delta/dtheta in 0.1..1.5, smooth blob inside a box; non-trivial row: stencils of "
                 "both kicks inside the grid and |t(x-xc)-W| and |W| > 10 tol. Long run: see explored_long_run.")
     coq = vp_coq.full_check("C05", ctx, fams=("haiss",))
+    complete_axioms(ctx, coq)
     dis = []
     order = None
     try:
